@@ -92,6 +92,7 @@ func treeWorkload(c *Ctx, nMut, nGen int, f func(entry, input string)) {
 			}
 		}
 	}
+	openThenBroken(c, &idx, f)
 	for _, ll := range gen.LongLiterals() {
 		if c.Mine(idx) {
 			f(ll.Entry, ll.Text)
